@@ -107,7 +107,7 @@ func c08Chain(c *Ctx) {
 			if al := verifyOptsAlloc(v.Call.Args[1]); al != nil {
 				names := map[ssa.Value]string{}
 				for _, p := range f.Params {
-					names[p] = p.Name()
+					names[p] = pname(p)
 				}
 				be := newBigEnv(f, names)
 				got := map[string]string{}
@@ -207,7 +207,7 @@ func c08SKE(c *Ctx) {
 	// the signing certificate and the encryption certificate handed to the key agreement
 	names := map[ssa.Value]string{}
 	for _, p := range f.Params {
-		names[p] = p.Name()
+		names[p] = pname(p)
 	}
 	be := newBigEnv(f, names)
 	certArg := fieldForm(be.plain(pske[0].Call.Args[len(pske[0].Call.Args)-2], pske[0]).String())
@@ -235,7 +235,7 @@ func c08SKE(c *Ctx) {
 	describe := func(fn *ssa.Function) string {
 		nm := map[ssa.Value]string{}
 		for _, prm := range fn.Params {
-			nm[prm] = prm.Name()
+			nm[prm] = pname(prm)
 		}
 		e := newBigEnv(fn, nm)
 		for _, h := range callsNamedIn(fn, "hashForServerKeyExchange") {
@@ -367,7 +367,7 @@ func c08Finished(c *Ctx) {
 		// the sum is over the master secret
 		names := map[ssa.Value]string{}
 		for _, p := range f.Params {
-			names[p] = p.Name()
+			names[p] = pname(p)
 		}
 		arg := fieldForm(newBigEnv(f, names).plain(sum.Call.Args[len(sum.Call.Args)-1], sum).String())
 		c.Check(strings.HasSuffix(arg, "masterSecret"), rule, fname(f), "the expected verify_data is derived from the master secret", "", "the sum is computed from "+arg, sum.Pos())
@@ -408,7 +408,7 @@ func c08ClientAuth(c *Ctx) {
 		if al := verifyOptsAlloc(v.Call.Args[1]); al != nil {
 			names := map[ssa.Value]string{}
 			for _, p := range f.Params {
-				names[p] = p.Name()
+				names[p] = pname(p)
 			}
 			be := newBigEnv(f, names)
 			roots := ""
@@ -551,7 +551,7 @@ func c08ClientAuth(c *Ctx) {
 		// the public key verified against is the one processCertsFromClient returned
 		names := map[ssa.Value]string{}
 		for _, p := range f.Params {
-			names[p] = p.Name()
+			names[p] = pname(p)
 		}
 		pk := newBigEnv(f, names).plain(vs[0].Call.Args[1], vs[0]).String()
 		if phi, isPhi := vs[0].Call.Args[1].(*ssa.Phi); isPhi {
